@@ -145,7 +145,9 @@ def delay_values(dt):
 
 def gen_conn(rng, dt, want_delay, conv_ok=True):
     kind = rng.choice(["LinearDense"] * 4 + ["LinearDirect", "LinearLateral"] + (["Conv2D"] * 2 if conv_ok else []))
-    maxd = (0.3 if dt == 0.1 else 3 * dt) if want_delay else None
+    # the maximum delay is also the bound update steps clamp learned delays to: keep it off the 0.1 grid (a t_delta that is
+    # zero in exact arithmetic but not in binary64 would make a discrete observable depend on rounding)
+    maxd = (0.31 if dt == 0.1 else 3 * dt) if want_delay else None
     if kind == "LinearDense":
         return {"cls": kind, "in": [rng.randint(1, 3)], "out": [rng.randint(1, 3)], "dt": dt, "delay": maxd, "bias": False}
     if kind in ("LinearDirect", "LinearLateral"):
@@ -364,6 +366,7 @@ def expected_parts(case, g, k, last_pre, last_post, delays, st):
     for e, pairs in enumerate(g["syn"]):
         d = 0.0 if cls == "KernelSTDP" else delays[e]
         sc, sa = [], []          # per sample: causal / anti-causal sums over the receptive field
+        ambiguous = False        # a branch decision within rounding of the boundary (only off the dyadic grid): not judged
         for b in range(B):
             c = a = 0.0
             for (i, o) in pairs:
@@ -371,6 +374,9 @@ def expected_parts(case, g, k, last_pre, last_post, delays, st):
                 if jp is None or jq is None:
                     continue      # no change while either side has not spiked yet
                 td = (jq - jp) * dt - d        # t_post_last - t_pre_last - d
+                if 0 < abs(td) < 1e-9 or (abs(td) < 1e-9 and dt == 0.1 and d != 0.0):
+                    ambiguous = True
+                    STATS["tdelta_within_rounding_of_zero_skipped"] += 1
                 STATS["tdelta_evaluated"] += 1
                 STATS["tdelta_exactly_zero"] += int(td == 0)
                 STATS["tdelta_negative"] += int(td < 0)
@@ -380,6 +386,10 @@ def expected_parts(case, g, k, last_pre, last_post, delays, st):
                     a += math.exp(td / tc_a)
             sc.append(c)
             sa.append(a)
+        if ambiguous:
+            pos.append(None)
+            neg.append(None)
+            continue
         p = n = 0.0
         if persample:
             gam = abs(st.get("scale", 1.0))
@@ -444,6 +454,8 @@ def oracle_cell(case, g, obs, impl):
                     return ({"step": k, "what": f"{nm} size", "got": len(got), "want": len(want)},
                             {"trainer": cls, "what": "parts"})
                 for e, (x, y) in enumerate(zip(got, want)):
+                    if y is None:
+                        continue
                     if not F.close(x, y, rel=1e-9, ab=1e-12):
                         return ({"step": k, "what": f"{nm} part differs from the documented rule", "element": e,
                                  "got": x, "want": y}, {"trainer": cls, "what": "parts"})
@@ -455,6 +467,8 @@ def oracle_cell(case, g, obs, impl):
                     n = case["conn"]["in"][0]
                     mask = [0.0 if (e // n) == (e % n) else 1.0 for e in range(n * n)]
                 for e in range(len(bef)):
+                    if exp[0][e] is None:
+                        continue
                     want = bef[e] + exp[0][e] - exp[1][e]
                     if mask is not None:
                         want *= mask[e]
